@@ -72,10 +72,17 @@ type ContentBlock struct {
 	ToolUseID string                 `json:"tool_use_id,omitempty"`
 }
 
-// MarshalJSON keeps the "input" object on tool_use blocks whose arguments are empty:
-// omitempty would drop an empty map, but the Anthropic format requires "input": {}.
+// MarshalJSON keeps the fields the Anthropic format requires even when they are empty, which
+// omitempty would drop: "input": {} on tool_use blocks without arguments and "text": "" on
+// text blocks without text.
 func (c ContentBlock) MarshalJSON() ([]byte, error) {
 	type plain ContentBlock
+	if c.Type == "text" && c.Text == "" {
+		return json.Marshal(struct {
+			Text string `json:"text"`
+			plain
+		}{Text: "", plain: plain(c)})
+	}
 	if c.Type != "tool_use" || len(c.Input) > 0 {
 		return json.Marshal(plain(c))
 	}
